@@ -85,15 +85,20 @@ def evalC (s : RW) : Cond → Bool
   | .and a b => evalC s a && evalC s b
   | .or a b => evalC s a || evalC s b
 
-/-- `downStream.cleanStream()`: the compare-and-swap on `downstreamCleaned`, then the body — the upstream request is reset
-unless its processing is done (`ur` is observable only when its stream was still open), timers, metrics (active gauge),
-access log, `proxy.deleteActiveStream` -/
-def cleanStream (s : RW) : RW :=
-  if s.cleaned then s else
-  let doReset := !s.procDone
-  { s with cleaned := true, procDone := true, upLive := s.upLive && !doReset,
-           active := s.active - 1, listed := false,
+def hasStep (st : CleanStep) : Bool := cleanSteps.contains st
+
+/-- the body of `downStream.cleanStream()` — its REGENERATED steps: the upstream request is reset unless its processing is
+done (`ur` is observable only when its stream was still open), the metrics step gives the active gauge back, the access log
+is written, `delete` takes the stream off `proxy.activeStreams` -/
+def cleanBody (s : RW) : RW :=
+  let doReset := hasStep .resetUpstreamUnlessDone && !s.procDone
+  { s with cleaned := true, procDone := s.procDone || doReset, upLive := s.upLive && !doReset,
+           active := if hasStep .metrics && metricsCountDown then s.active - 1 else s.active,
+           listed := s.listed && !hasStep .delete,
            ev := (if doReset && s.upLive then s.ev ++ [.ur] else s.ev) ++ [.clean] }
+
+/-- `downStream.cleanStream()`: the compare-and-swap on `downstreamCleaned` (regenerated: is it there), then the body -/
+def cleanStream (s : RW) : RW := if cleanOnce && s.cleaned then s else cleanBody s
 
 /-- `downStream.OnResetStream(reason)`: one-shot flag (+ wake-up of a parked worker; the worker is running here) -/
 def onResetStream (s : RW) : RW := { s with downReset := true }
@@ -111,7 +116,7 @@ def act (o : Outs) (s : RW) : Act → RW
     let ok := o.of s.part
     -- a server stream is destroyed by the codec when its last part was written
     { s with failed := !ok, downLive := s.downLive && !(s.eos && ok), ev := s.ev ++ [.call s.part s.eos ok] }
-  | .endStream => cleanStream { s with ev := s.ev ++ [.endStream] }
+  | .endStream => if endStreamCleans then cleanStream { s with ev := s.ev ++ [.endStream] } else { s with ev := s.ev ++ [.endStream] }
   | .cleanStream => cleanStream s
   | .resetStream => resetStream s
   | .ret => { s with skipping := true }
